@@ -7,7 +7,7 @@ from harness import common as c
 RULE = ("histories of top-level events {block with a body, plain `a >> b`, ifmax outside a block}; block bodies drawn from "
         "{ifmax with k routing effects and a zero / scalar / non-scalar condition, named or unnamed; ifmax with a non-routing "
         "effect; ifmax with an effect whose build fails; free-floating routing; exception; nested block}; exhaustive over "
-        "a body alphabet to history length 2 (quick) / 3 (thorough) and random to length 12 with up to 6 actions per block. "
+        "a body alphabet to history length 2 (quick) / 3 (thorough; the third event from 8 observing events) and random to length 12 with up to 6 actions per block. "
         "After every event: the three process-wide switches, exception class, block.built, list(block.keys()), block[k] is "
         "the k-th utility, number of immediate connections made, and that no `>>` inside a block connected immediately. "
         "Non-trivial: history containing a failing block followed by another event; distinct = distinct history.")
@@ -236,8 +236,14 @@ def run(rep, tier, rng):
 
     hists = []
     L = 2 if quick else 3
+    # all histories of length <= 2; of length 3 (thorough): any two events followed by one of a few observing events (what a third
+    # event can show is the residue of the first two)
+    OBSERVERS = [("block", "ok1"), ("block", "ok2named"), ("block", "free"), ("block", "nested"), ("block", "raise-first"),
+                 ("block", "failbuild"), ("route",), ("ifmax-outside",)]
     for n in range(1, L + 1):
         for h in itertools.product(EVENTS, repeat=n):
+            if n == 3 and h[2] not in OBSERVERS:
+                continue
             hists.append((list(h), BODIES))
     # random longer histories with random bodies (up to 6 actions)
     for _ in range(40 if quick else 400):
